@@ -246,26 +246,51 @@ COLL_ADD = ('push', 'insert', 'push_back', 'push_front', 'extend', 'get_or_inser
 COLL_REM = ('remove', 'retain', 'swap_remove', 'pop', 'pop_front', 'pop_back', 'clear', 'drain', 'remove_entry', 'truncate')
 
 
+def direct_collection_ops(f):
+    """[(call, field, 'add'|'rem')] for the std collection mutations of body `f` reached through a named field (directly or
+    through a guard taken from that field)"""
+    out = []
+    for c in f.calls:
+        if c.bb not in f.reachable() or not (c.path.startswith('std::vec::Vec') or c.path.startswith('std::collections::')):
+            continue
+        kind = 'add' if c.name in COLL_ADD else ('rem' if c.name in COLL_REM else None)
+        if not kind:
+            continue
+        flds = [x for x in prims.field_of_receiver(f, c) if x and not x.isdigit()]
+        if not flds and c.args:
+            # a collection behind a lock: `self.set.lock().expect(..).insert(x)` - the field the guard was taken from
+            flds = [o.data[1] for o in core.origins(f, c.args[0], stop_fields=True) if o.kind == 'field']
+        if not flds:
+            continue
+        out.append((c, flds[-1], kind))
+    return out
+
+
 def collection_effects(prog):
     """per non-coroutine function of the crate: {(field, 'add'|'rem')} for std collection mutations reached through a named field"""
     eff = {}
     for f in prog.fns.values():
         if f.is_coroutine:
             continue
-        for c in f.calls:
-            if c.bb not in f.reachable() or not (c.path.startswith('std::vec::Vec') or c.path.startswith('std::collections::')):
-                continue
-            kind = 'add' if c.name in COLL_ADD else ('rem' if c.name in COLL_REM else None)
-            if not kind:
-                continue
-            flds = [x for x in prims.field_of_receiver(f, c) if x and not x.isdigit()]
-            if not flds and c.args:
-                # a collection behind a lock: `self.set.lock().expect(..).insert(x)` - the field the guard was taken from
-                flds = [o.data[1] for o in core.origins(f, c.args[0], stop_fields=True) if o.kind == 'field']
-            if not flds:
-                continue
-            eff.setdefault(prog.fns[f.id].root, set()).add((flds[-1], kind))
+        for (c, fld, kind) in direct_collection_ops(f):
+            eff.setdefault(prog.fns[f.id].root, set()).add((fld, kind))
     return eff
+
+
+def collection_sites(prog, f, eff):
+    """(adds, rems) of body `f`: calls of functions with a collection effect, and the body's own collection mutations (a
+    `start_x` / `finish_x` helper pair that was inlined)"""
+    adds, rems = [], []
+    for c in f.calls:
+        if c.bb not in f.reachable() or c.name == 'poll':
+            continue
+        for t in prog.resolve(c):
+            for (fld, kind) in eff.get(t, ()):
+                (adds if kind == 'add' else rems).append((c, fld))
+    if f._has_inlined:
+        for (c, fld, kind) in direct_collection_ops(f):
+            (adds if kind == 'add' else rems).append((c, fld))
+    return adds, rems
 
 
 def x7(ctx, rid):
@@ -281,13 +306,7 @@ def x7(ctx, rid):
     for f in prog.fns.values():
         if not f.is_coroutine or (f.id not in cc and f.root not in cc):
             continue
-        adds, rems = [], []
-        for c in f.calls:
-            if c.bb not in f.reachable() or c.name == 'poll':
-                continue
-            for t in prog.resolve(c):
-                for (fld, kind) in eff.get(t, ()):
-                    (adds if kind == 'add' else rems).append((c, fld))
+        adds, rems = collection_sites(prog, f, eff)
         ry = core.real_yields(prog, f)
         for (a, fa) in adds:
             for (r, fr) in rems:
